@@ -49,6 +49,7 @@ def canonical_rets(recv):
            ("result", R.RRes("u8", "i32")), ("int-io", R.RIntRes("u64", "io")), ("int-unit-payload", R.RIntRes("()", "unit")),
            ("int-user", R.RIntRes("Pod1", "UErr")),
            ("int-alias-user", R.RIntRes("u64", "UErr", True)), ("int-alias-io", R.RIntRes("()", "io", True))]
+    out += [("static-str", R.RStatic("str")), ("static-bytes", R.RStatic("bytes"))]
     if recv in ("ref", "mut", "own"):
         out.append(("child-owned", R.RChild("owned", False)))
         out.append(("childgroup-owned", R.RChild("owned", True)))
@@ -190,6 +191,7 @@ def _make_defs(seed, n_random, n_groups):
         src = f"Gr{k}, {mand_txt}, {{ {', '.join(opt)} }}"
         mods = [f"r{i}" for i in pick]
         defs.append({"id": f"g{k}", "kind": "group", "src": src, "nontrivial": len(pick) >= 2, "label": "group", "uses": mods,
+                     "group": f"Gr{k}", "mand": [rnd[i].name for i in pick[:nm]], "opt": [rnd[i].name for i in pick[nm:]],
                      "extra": PRELUDE + "".join(f"use super::{m}::*;\n" for m in mods) + "//@@" + f"""
 extern "C" {{
     pub fn probe_g{k}_box(o: &Gr{k}Box<'static>);
